@@ -379,3 +379,76 @@ def query_response(qi: int, n: int) -> bool:
     post: _
     """
     return done(fast.native(_query, fast.pick(qi, len(QUERIES)), fast.pick(n, 4)))
+
+
+# ------------------------------------------------------------------ a repeated statement is answered from ITS execution, not from an earlier one
+def _repeated(change: int) -> bool:
+    from fakesnow.types import describe_as_rowtype
+    from vf.session import instance, std_engine
+    from vf.stubs import StubTable
+
+    srv = _server()
+    eng = std_engine()
+    conn = instance(eng).connect(database="db1", schema="s1")
+    saved = dict(srv.sessions)
+    saved_fns = srv.run_in_threadpool, srv.to_ipc, srv.to_sf
+    seen = {}
+
+    async def direct(fn, *a, **k):
+        return fn(*a, **k)
+
+    def fake_to_sf(table, rowtype):
+        seen["rowtype"] = rowtype
+        return table
+
+    srv.run_in_threadpool, srv.to_ipc, srv.to_sf = direct, (lambda t: b"ipc"), fake_to_sf
+    srv.sessions.clear()
+    srv.sessions["TOK"] = conn
+    try:
+        def ask(sql):
+            resp = asyncio.run(srv.query_request(_Req({"Authorization": 'Snowflake Token="TOK"'}, {"sqlText": sql})))
+            return json.loads(resp.body)
+
+        sql = "select * from t1"
+        eng.query_result = StubTable(["A", "B"], [(1, 2)])
+        r1 = ask(sql)
+        if [c["name"] for c in r1["data"]["rowtype"]] != ["A", "B"]:
+            return False
+        if change == 0:
+            ask("alter table t1 add column c int")
+            eng.query_result = StubTable(["A", "B", "C"], [(1, 2, 3)])
+            want = ["A", "B", "C"]
+        elif change == 1:
+            ask("create or replace table t1 (z varchar)")
+            eng.query_result = StubTable(["Z"], [("x",)])
+            want = ["Z"]
+        elif change == 2:
+            ask("use schema s2")
+            eng.query_result = StubTable(["A"], [(9,)])
+            want = ["A"]
+        else:
+            want = ["A", "B"]
+        r2 = ask(sql)
+        names = [c["name"] for c in r2["data"]["rowtype"]]
+        arrow_names = [c["name"] for c in seen.get("rowtype") or []]
+        return r2["success"] is True and names == want and arrow_names == want
+    finally:
+        srv.run_in_threadpool, srv.to_ipc, srv.to_sf = saved_fns
+        srv.sessions.clear()
+        srv.sessions.update(saved)
+
+
+@ob(
+    "C17.repeated_statement_is_described_afresh",
+    encodes=["fakesnow.server.query_request (rowtype / Arrow metadata per request)"],
+    bounds="one login session; the same statement text sent twice, and between the two requests: ALTER TABLE ADD COLUMN | CREATE OR REPLACE with other "
+    "columns | USE SCHEMA to a same-named table | nothing: rowtype and the metadata given to the Arrow encoder describe the second result",
+    timeout=(200, 400),
+    stubs=["K1/K2 vf.duckstub.Engine", "to_ipc / to_sf recorders"],
+)
+def repeated_statement(change: int) -> bool:
+    """
+    pre: 0 <= change <= 3
+    post: _
+    """
+    return done(fast.native(_repeated, fast.pick(change, 4)))
